@@ -751,7 +751,14 @@ func (x *btCtx) checkScanEntries(rel string) {
 			continue
 		}
 		name := "(*btree.BTree)." + en.name
-		traces, _ := c.Trace(fn, TraceConfig{Inline: func(*ssa.Function, int) bool { return false }})
+		// a scan entry written through a sibling (AscendGreaterOrEqual(p) = AscendRange(p, nil)) is walked into it
+		entryNames := map[string]bool{}
+		for _, e2 := range table {
+			entryNames[e2.name] = true
+		}
+		traces, _ := c.Trace(fn, TraceConfig{Inline: func(callee *ssa.Function, depth int) bool {
+			return depth < 3 && callee != fn && entryNames[callee.Name()] && recvNamedName(callee) == "BTree"
+		}})
 		ok, n := true, 0
 		argOf := func(t *Trace, spec string) func(s *Sym) bool {
 			return func(s *Sym) bool {
